@@ -965,16 +965,27 @@ variable [Zero α] [Add α] [Sub α] [Mul α] [Div α] [LT α] [DecidableLT α]
 def gsResidual (U : Mat α) (v : Nat → α) : Nat → α :=
   fun i => v i - sumN U.cols (fun c => U.get i c * sumN U.rows (fun k => U.get k c * v k))
 
-/-- one pass of the loop body `for j in range(d)` of `gta`:
+/-- which "skip" test the basis extension uses -/
+inductive SkipRule (α : Type) where
+  /-- the code since fix 2f34e7d (both `gta` and `gta_ls`): `ny <= c * ||v||` or the basis is already complete -/
+  | relative (c : α)
+  /-- `gta` as coded before 2f34e7d: `ny < t` with the literal `t = 1e-14` (negation witnesses only) -/
+  | absolute (t : α)
+  /-- `gta_ls` as coded before 2f34e7d: no test at all (negation witnesses only) -/
+  | never
+
+/-- one pass of the loop body `for j in range(d)` of `gta` (564-571) and `gta_ls` (676-683):
 ```
 y = vs[j] - U[j].dot(U[j].T.dot(vs[j])); ny = np.linalg.norm(y)
-if ny < 1e-14: continue            # skip almost zero vectors
+if ny <= 1e-10 * np.linalg.norm(vs[j]) or U[j].shape[1] >= U[j].shape[0]: continue
 U[j] = np.column_stack((U[j], y / ny))
 ```
-`ny` (a square root) is an input of the model; `thr` is the literal `1e-14`.  `gta_ls` (675-682) has the same
-body without the skip (`thr = none`). -/
-def gtaExtend (thr : Option α) (U : Mat α) (v : Nat → α) (ny : α) : Mat α :=
-  let skip := match thr with | some t => decide (ny < t) | none => false
+The norms `ny = ||y||`, `nv = ||vs[j]||` (square roots) are inputs of the model; `c` is the literal `1e-10`. -/
+def gtaExtend (rule : SkipRule α) (U : Mat α) (v : Nat → α) (ny nv : α) : Mat α :=
+  let skip := match rule with
+    | .relative c => !(decide (c * nv < ny)) || decide (U.rows ≤ U.cols)
+    | .absolute t => decide (ny < t)
+    | .never => false
   if skip then U
   else ⟨U.rows, U.cols + 1, fun i c => if c < U.cols then U.get i c else gsResidual U v i / ny⟩
 end Greedy
